@@ -82,6 +82,16 @@ def relevant_obligations(prop, info, lemma_obs):
 def dependencies(prop, info, R):
     """functions of /repo whose contract or denotation this property's argument rests on"""
     deps = set(ob['fn'] for ob in R.values() if ob.get('fn'))
+    # a clause written on a trait method is discharged in every implementation: those bodies are dependencies too
+    for ob in R.values():
+        fn = ob.get('fn') or ''
+        if fn.startswith('trait ') and '::' in fn:
+            tname, meth = fn[len('trait '):].rsplit('::', 1)
+            only = (ob.get('restricted') or {}).get(prop)
+            for f in info.functions:
+                k = f['key']
+                if k.startswith(tname + ' for ') and k.endswith('::' + meth) and (not only or only in k):
+                    deps.add(k)
     kind = PROPS[prop].get('denotations', '')
     for f in info.functions:
         k = f['key']
